@@ -367,11 +367,13 @@ func runWriter(cs *codecs, u *Use, ids map[uintptr]int) (trace.Event, *useOut) {
 func runReader(cs *codecs, u *Use, ids map[uintptr]int, outs []*useOut) trace.Event {
 	var stream, payload []byte
 	srcdesc := ""
+	srcok := true
 	switch {
 	case u.Src.Kind == "use":
 		o := outs[u.Src.U]
 		stream, payload = o.out, o.payload
 		srcdesc = "use"
+		srcok = o.ok
 	default:
 		payload = Payload(u.Src.PClass, u.Src.PSeed, u.Src.Total)
 		srcdesc = "ref:" + u.Src.Enc
@@ -513,5 +515,5 @@ func runReader(cs *codecs, u *Use, ids map[uintptr]int, outs []*useOut) trace.Ev
 	}
 	return trace.Event{"obj": obj, "reused": reused, "ops": ops, "total": pos, "eq": eq, "final": final,
 		"plen": len(payload), "src": srcdesc, "srcchunk": u.SrcChunk, "eofwithdata": u.EOFWithData,
-		"stream": map[string]interface{}{"hdr": hdr, "blocks": blocks, "nitems": nitems, "trunc": tr, "len": len(stream), "cut": cut}}
+		"stream": map[string]interface{}{"srcok": srcok, "hdr": hdr, "blocks": blocks, "nitems": nitems, "trunc": tr, "len": len(stream), "cut": cut}}
 }
